@@ -2,6 +2,8 @@ package main
 
 import (
 	"fmt"
+	"os"
+	"sort"
 	"strings"
 
 	"verifharness/hx"
@@ -24,16 +26,18 @@ const caseTail = "Definition M := Eval vm_compute in mismatches check_case cases
 	"Definition NREPLYLOOP := Eval vm_compute in (count_if is_replyloop cases : Z).\nPrint NREPLYLOOP.\n" +
 	"Definition NREFUSED := Eval vm_compute in (sum_Z replyloop_failed_writes cases : Z).\nPrint NREFUSED.\n" +
 	"Definition NALPHABET := Eval vm_compute in (count_if is_alphabet cases : Z).\nPrint NALPHABET.\n" +
+	"Definition NCFGSIZE := Eval vm_compute in (count_if is_cfgsize cases : Z).\nPrint NCFGSIZE.\n" +
+	"Definition NREPLACE := Eval vm_compute in (count_if is_replace_case cases : Z).\nPrint NREPLACE.\n" +
 	"Definition NSYS := Eval vm_compute in (count_if is_sys cases : Z).\nPrint NSYS.\n" +
 	"Definition NSOCKETS := Eval vm_compute in (sum_Z fwd_sockets cases : Z).\nPrint NSOCKETS.\n"
 
-// runUDP: -extra selects parts ("pure,fwd,full,replyloop,alphabet,sys,idle,race,heartbeat"; default all).  -n scales the pure part;
+// runUDP: -extra selects parts ("pure,fwd,full,replyloop,alphabet,cfgsize,sys,idle,race,heartbeat"; default all).  -n scales the pure part;
 // the other parts have fixed scenario lists (longer in the thorough tier).
 func runUDP(cfg *hx.RunCfg) error {
 	hx.Quiet()
 	parts := cfg.Extra
 	if parts == "" {
-		parts = "pure,fwd,full,replyloop,alphabet,sys,idle,race,heartbeat"
+		parts = "pure,fwd,full,replyloop,alphabet,cfgsize,sys,idle,race,heartbeat"
 	}
 	has := func(p string) bool { return strings.Contains(","+parts+",", ","+p+",") }
 	g := hx.NewGen(cfg.Seed)
@@ -93,6 +97,9 @@ func runUDP(cfg *hx.RunCfg) error {
 	if has("alphabet") {
 		cases = append(cases, runAlphabet(cfg, g, dist, &fails)...)
 	}
+	if has("cfgsize") {
+		cases = append(cases, runCfgSize(cfg, g, dist, &fails)...)
+	}
 	if has("sys") {
 		cases = append(cases, runSys(cfg, g, dist, &fails)...)
 	}
@@ -139,6 +146,7 @@ func runUDP(cfg *hx.RunCfg) error {
 	cfg.St["samples"] = samples
 	cfg.St["distribution"] = dist
 	cfg.St["impl_failures"] = fails
+	cases = balance(cases)
 	cf := &hx.CaseFile{Imports: caseImports, Typ: "case", Cases: cases, Tail: caseTail}
 	if err := cf.Write(cfg.Out); err != nil {
 		return err
@@ -148,3 +156,53 @@ func runUDP(cfg *hx.RunCfg) error {
 }
 
 func dist0() map[string]int { return map[string]int{} }
+
+// balance reorders the cases so that the consecutive chunks CaseFile.Write cuts (VERIF_SHARDS of them) carry about the
+// same amount of text: Coq's time per shard is dominated by parsing the hex literals.
+func balance(cases []string) []string {
+	shards := 1
+	if v := os.Getenv("VERIF_SHARDS"); v != "" {
+		fmt.Sscan(v, &shards)
+	}
+	if shards <= 1 || len(cases) <= shards {
+		return cases
+	}
+	idx := make([]int, len(cases))
+	for i := range idx {
+		idx[i] = i
+	}
+	sort.SliceStable(idx, func(a, b int) bool { return len(cases[idx[a]]) > len(cases[idx[b]]) })
+	per := (len(cases) + shards - 1) / shards
+	bins := make([][]string, shards)
+	weight := make([]int, shards)
+	for _, i := range idx {
+		best := -1
+		for b := 0; b < shards; b++ {
+			if len(bins[b]) < per && (best < 0 || weight[b] < weight[best]) {
+				best = b
+			}
+		}
+		bins[best] = append(bins[best], cases[i])
+		weight[best] += len(cases[i])
+	}
+	// every bin but the last must be full, otherwise the chunks would not coincide with the bins
+	var out []string
+	for b := 0; b < shards; b++ {
+		for len(bins[b]) < per && b+1 < shards {
+			moved := false
+			for c := shards - 1; c > b; c-- {
+				if n := len(bins[c]); n > 0 {
+					bins[b] = append(bins[b], bins[c][n-1])
+					bins[c] = bins[c][:n-1]
+					moved = true
+					break
+				}
+			}
+			if !moved {
+				break
+			}
+		}
+		out = append(out, bins[b]...)
+	}
+	return out
+}
